@@ -16,7 +16,7 @@ OBLIGATIONS = [
     "C39/P_free_symbols_terminates.v", "C39/P_free_symbols_refuted.v", "C39/P_eq_preserves_occurrences.v",
     "C39/P_has_symbol_spec.v", "C39/P_has_symbol_occurs.v", "C39/P_has_symbol_agrees_guarded.v",
     "C39/P_has_symbol_agrees_refuted.v",
-    "C39/P_atoms_sound.v", "C39/P_atoms_complete_partial.v", "C39/P_function_symbols_spec.v",
+    "C39/P_atoms_sound.v", "C39/P_atoms_complete.v", "C39/P_atoms_complete_exact.v", "C39/P_function_symbols_spec.v",
     "C39/P_coeff_spec.v", "C39/P_coeff_reconstruct_partial.v", "C39/P_coeff_requires_symbol.v",
     "C39/P_nonvacuous.v",
 ]
@@ -24,7 +24,8 @@ OBLIGATIONS = [
 # compiled here, directly with coqc, whenever a source or a shared library they load has changed)
 OWN_FILES = ["C39/QueryModel.v", "C39/CoeffModel.v", "C39/QuerySpec.v", "C39/OccProofs.v", "C39/QueryLemmas.v",
              "C39/OccArgs.v", "C39/FsSound.v", "C39/EqbTransfer.v", "C39/ArgsDown.v", "C39/FsComplete.v",
-             "C39/FsSpec.v", "C39/HasSym.v", "C39/Atoms.v", "C39/CoeffProofs.v"]
+             "C39/FsSpec.v", "C39/HasSym.v", "C39/Atoms.v", "C39/AtomsCong.v", "C39/AtomsArgs.v",
+             "C39/AtomsComplete.v", "C39/CoeffProofs.v"]
 SHARED_DEPS = ["Base/Prelude.vo", "Base/Word64.vo", "Num/NumDefs.vo", "Num/NumModel.vo", "Gen/TypeCodes.vo",
                "Expr/ExprDefs.vo", "Expr/Hash.vo", "Expr/Cmp.vo", "Expr/Guards.vo", "Expr/Wf.vo", "Expr/NumProofs.vo",
                "Expr/Unfold.vo", "Expr/IO.vo"]
@@ -303,7 +304,7 @@ def explore(ctx, drv, model, cases, search=False):
     nontriv = set()
     guard_counts = ctx.cov.setdefault("cases_by_hypothesis", {
         "no_binder(all theorems apply)": 0, "set_binder(guard of free_symbols_spec)": 0, "subs(guard of has_symbol_agrees)": 0,
-        "tree_ok": 0, "not_tree_ok": 0, "closure_exact": 0, "not_closure_exact": 0, "closure_exact_untested": 0})
+        "tree_ok": 0, "not_tree_ok": 0, "nums_ok": 0, "not_nums_ok": 0, "closure_exact": 0, "not_closure_exact": 0, "closure_exact_untested": 0})
     for k, i in enumerate(idx):
         m, _, g = mod[k].partition("\t#G:")
         ctx.cov["traces_validated_against_impl"] += 1
@@ -320,6 +321,7 @@ def explore(ctx, drv, model, cases, search=False):
         else:
             guard_counts["no_binder(all theorems apply)"] += 1
         guard_counts["tree_ok" if g[2:3] == "1" else "not_tree_ok"] += 1
+        guard_counts["nums_ok" if g[4:5] == "1" else "not_nums_ok"] += 1
         guard_counts[{"1": "closure_exact", "0": "not_closure_exact"}.get(g[3:4], "closure_exact_untested")] += 1
         if g[2:3] == "0" and len(ctx.notes) < 5:
             ctx.notes.append("a library-built tree violates tree_ok (hypothesis of the completeness theorems): " + dump_e[:300])
